@@ -171,3 +171,47 @@ impl<T> Done<T> {
         }
     }
 }
+
+/// Run `f` on a helper thread and wait at most `limit` for it. `None` = it did not come back
+/// (the thread is leaked; nothing it holds is touched again). Used so that a deadlock inside the
+/// code under test can never hang the monitor itself.
+pub fn run_bounded<T: Send + 'static>(name: &str, limit: Duration, f: impl FnOnce() -> T + Send + 'static) -> Option<T> {
+    let done: Done<std::thread::Result<T>> = Done::new();
+    let d2 = done.clone();
+    let spawned = std::thread::Builder::new().name(name.chars().take(15).collect()).spawn(move || {
+        let res = std::panic::catch_unwind(std::panic::AssertUnwindSafe(f));
+        d2.set(res);
+    });
+    if spawned.is_err() {
+        return None;
+    }
+    match done.wait(limit) {
+        Some(Ok(v)) => Some(v),
+        Some(Err(p)) => std::panic::resume_unwind(p),
+        None => None,
+    }
+}
+
+/// Run one section of a monitor on a helper thread with its own child report; merge it if it
+/// finished within `limit`, otherwise note an inconclusive result and move on.
+pub fn bounded_section(
+    r: &mut vcommon::Report,
+    name: &str,
+    limit: Duration,
+    f: impl FnOnce(&mut vcommon::Report) + Send + 'static,
+) -> bool {
+    let mut child = r.child();
+    match run_bounded(name, limit, move || {
+        f(&mut child);
+        child
+    }) {
+        Some(child) => {
+            r.merge(child);
+            true
+        }
+        None => {
+            r.inconclusive(format!("section `{}` did not finish within {:?} (something inside the code under test never returned); its results are missing", name, limit));
+            false
+        }
+    }
+}
